@@ -824,7 +824,7 @@ func closureParamSource(x *ssa.Parameter) ssa.Value {
 		return nil
 	}
 	/* Its one use as an argument. */
-	var site *ssa.CallCommon
+	var site, direct *ssa.CallCommon
 	argAt := -1
 	n := 0
 	var uses func(v ssa.Value, depth int)
@@ -844,12 +844,20 @@ func closureParamSource(x *ssa.Parameter) ssa.Value {
 						site, argAt = y.Common(), k
 					}
 				}
+				if y.Common().Value == v && !y.Common().IsInvoke() {
+					direct = y.Common()
+				}
 			default:
 				n += 2
 			}
 		}
 	}
 	uses(mcs[0], 0)
+	/* The literal itself is what is called (go func(src io.Reader) { … }(x)):
+	the argument. */
+	if 1 == n && nil != direct && nil == site && idx < len(direct.Args) {
+		return direct.Args[idx]
+	}
 	if 1 != n || nil == site {
 		return nil
 	}
